@@ -3,10 +3,13 @@
 //! request:
 //!   iso <kind> <c1> <c2> <beta> <quad>* | <quad>*
 //!     kind   how the pair was made (informative only; every oracle is recomputed from the data)
-//!     c1,c2  container types: vec hset bset fast light (datasets) / gvec ghset gbset gfast glight (graphs)
+//!     c1,c2  container types: vec hset bset fast light arc gspo slice frem (datasets) /
+//!            gvec ghset gbset gfast glight garc grc gunion gdgraph (graphs); see `dispatch`
 //!     beta   `-` or `hex:hex,…`: a claimed blank node renaming D1 -> D2 (a certificate, verified here)
 //!
 //! reply: n1= n2= iso=0/1 sym=0/1 cert=0/1 ground_differs=0/1 [FAIL.*]
+//!   the two calls run on a worker thread with a wall cap of CAP_SECS (normal cost: micro- to milliseconds);
+//!   a call that does not come back is reported as `iso=hang FAIL.no_termination=…` for *that* request
 //!   cert=1            beta is injective on the labels of D1 and D2 is a permutation of beta(D1)
 //!                     => the answer must be true (FAIL.false_negative)
 //!   ground_differs=1  sizes, blank node counts or blanked-out statement multisets differ
@@ -15,13 +18,14 @@
 //!   locally indistinguishable blank nodes) and never flagged.
 use sophia_api::dataset::{Dataset, MutableDataset};
 use sophia_api::graph::{Graph, MutableGraph};
-use sophia_api::quad::Spog;
-use sophia_api::term::SimpleTerm;
+use sophia_api::quad::{Gspo, Spog};
+use sophia_api::term::{FromTerm, SimpleTerm, Term};
+use sophia_term::{ArcTerm, RcTerm};
 use sophia_inmem::dataset::{FastDataset, LightDataset};
 use sophia_inmem::graph::{FastGraph, LightGraph};
 use sophia_isomorphism::{isomorphic_datasets, isomorphic_graphs};
 use std::collections::{BTreeMap, BTreeSet, HashSet};
-use vhcore::tgen::{q_to_simple, view_quad, view_triple};
+use vhcore::tgen::{q_to_simple, to_simple, view_quad, view_triple};
 use vhcore::util::*;
 use vhcore::GenCtx;
 
@@ -171,41 +175,143 @@ fn fill_g<G: MutableGraph + Default>(d: &[Q]) -> G {
     x
 }
 
-fn with_d<A: Dataset>(a: &A, c2: &str, d2: &[Q]) -> Option<Out> {
-    Some(match c2 {
-        "vec" => run_d(a, &spogs(d2)),
-        "hset" => run_d(a, &spogs(d2).into_iter().collect::<HashSet<_>>()),
-        "bset" => run_d(a, &spogs(d2).into_iter().collect::<BTreeSet<_>>()),
-        "fast" => run_d(a, &fill_d::<FastDataset>(d2)),
-        "light" => run_d(a, &fill_d::<LightDataset>(d2)),
-        _ => return None,
-    })
+fn arc(t: &ST) -> ArcTerm {
+    ArcTerm::from_term(t.borrow_term())
 }
 
-fn with_g<A: Graph>(a: &A, c2: &str, d2: &[Q]) -> Option<Out> {
-    Some(match c2 {
-        "gvec" => run_g(a, &spos(d2)),
-        "ghset" => run_g(a, &spos(d2).into_iter().collect::<HashSet<_>>()),
-        "gbset" => run_g(a, &spos(d2).into_iter().collect::<BTreeSet<_>>()),
-        "gfast" => run_g(a, &fill_g::<FastGraph>(d2)),
-        "glight" => run_g(a, &fill_g::<LightGraph>(d2)),
-        _ => return None,
-    })
+fn rc(t: &ST) -> RcTerm {
+    RcTerm::from_term(t.borrow_term())
+}
+
+/// the same statements with another term type (`IsoTerm<T>` is generic; `iso_eq` compares across the two types)
+fn arcs(d: &[Q]) -> Vec<Spog<ArcTerm>> {
+    spogs(d).iter().map(|(spo, g)| ([arc(&spo[0]), arc(&spo[1]), arc(&spo[2])], g.as_ref().map(arc))).collect()
+}
+
+/// the other tuple layout of a quad
+fn gspos(d: &[Q]) -> Vec<Gspo<ST>> {
+    spogs(d).into_iter().map(|(spo, g)| (g, spo)).collect()
+}
+
+fn noise(d: &[Q]) -> Vec<Q> {
+    d.iter()
+        .take(3)
+        .map(|q| Q { s: q.o.clone(), p: T::Iri("x:noise".into()), o: q.s.clone(), g: Some(T::Iri("x:noise".into())) })
+        .collect()
+}
+
+/// a `FastDataset` that held other statements before (inserted first, removed again)
+fn fill_rem(d: &[Q]) -> FastDataset {
+    let mut x = FastDataset::default();
+    let extra = spogs(&noise(d));
+    for (spo, g) in extra.iter().chain(spogs(d).iter()) {
+        MutableDataset::insert(&mut x, &spo[0], &spo[1], &spo[2], g.as_ref()).map_err(|_| "insert").unwrap();
+    }
+    for (spo, g) in extra.iter() {
+        MutableDataset::remove(&mut x, &spo[0], &spo[1], &spo[2], g.as_ref()).map_err(|_| "remove").unwrap();
+    }
+    x
+}
+
+/// the triples spread over the default graph and two named graphs (for the union-graph view)
+fn spread(d: &[Q]) -> Vec<Spog<ST>> {
+    let names = [None, Some(to_simple(&T::Iri("x:g1".into()))), Some(to_simple(&T::Iri("x:g2".into())))];
+    spos(d).into_iter().enumerate().map(|(i, spo)| (spo, names[i % 3].clone())).collect()
+}
+
+/// the triples in graph <x:g>, other triples in the default graph and in <x:h> (for the single-graph view)
+fn in_graph(d: &[Q]) -> Vec<Spog<ST>> {
+    let g = Some(to_simple(&T::Iri("x:g".into())));
+    let h = Some(to_simple(&T::Iri("x:h".into())));
+    let mut v: Vec<Spog<ST>> = spos(d).into_iter().map(|spo| (spo, g.clone())).collect();
+    for (i, (spo, _)) in spogs(&noise(d)).into_iter().enumerate() {
+        v.insert(i.min(v.len()), (spo, if i % 2 == 0 { None } else { h.clone() }));
+    }
+    v
+}
+
+pub const DATASETS: &[&str] = &["vec", "hset", "bset", "fast", "light", "arc", "dgspo", "slice", "frem"];
+pub const GRAPHS: &[&str] = &["gvec", "ghset", "gbset", "gfast", "glight", "garc", "grc", "gunion", "gdgraph"];
+
+macro_rules! with_dataset {
+    ($c:expr, $d:expr, |$x:ident| $body:expr) => {
+        match $c {
+            "vec" => { let $x = &spogs($d); Some($body) }
+            "hset" => { let $x = &spogs($d).into_iter().collect::<HashSet<_>>(); Some($body) }
+            "bset" => { let $x = &spogs($d).into_iter().collect::<BTreeSet<_>>(); Some($body) }
+            "fast" => { let $x = &fill_d::<FastDataset>($d); Some($body) }
+            "light" => { let $x = &fill_d::<LightDataset>($d); Some($body) }
+            "arc" => { let $x = &arcs($d); Some($body) }
+            "dgspo" => { let $x = &gspos($d); Some($body) }
+            "slice" => { let v = spogs($d); let $x = &&v[..]; Some($body) }
+            "frem" => { let $x = &fill_rem($d); Some($body) }
+            _ => None,
+        }
+    };
+}
+
+macro_rules! with_graph {
+    ($c:expr, $d:expr, |$x:ident| $body:expr) => {
+        match $c {
+            "gvec" => { let $x = &spos($d); Some($body) }
+            "ghset" => { let $x = &spos($d).into_iter().collect::<HashSet<_>>(); Some($body) }
+            "gbset" => { let $x = &spos($d).into_iter().collect::<BTreeSet<_>>(); Some($body) }
+            "gfast" => { let $x = &fill_g::<FastGraph>($d); Some($body) }
+            "glight" => { let $x = &fill_g::<LightGraph>($d); Some($body) }
+            "garc" => { let $x = &spos($d).iter().map(|t| [arc(&t[0]), arc(&t[1]), arc(&t[2])]).collect::<Vec<_>>(); Some($body) }
+            "grc" => { let $x = &spos($d).iter().map(|t| [rc(&t[0]), rc(&t[1]), rc(&t[2])]).collect::<Vec<_>>(); Some($body) }
+            "gunion" => { let ds = spread($d); let $x = &ds.union_graph(); Some($body) }
+            "gdgraph" => { let ds = in_graph($d); let $x = &ds.graph(Some(to_simple(&T::Iri("x:g".into())))); Some($body) }
+            _ => None,
+        }
+    };
 }
 
 fn dispatch(c1: &str, d1: &[Q], c2: &str, d2: &[Q]) -> Option<Out> {
-    match c1 {
-        "vec" => with_d(&spogs(d1), c2, d2),
-        "hset" => with_d(&spogs(d1).into_iter().collect::<HashSet<_>>(), c2, d2),
-        "bset" => with_d(&spogs(d1).into_iter().collect::<BTreeSet<_>>(), c2, d2),
-        "fast" => with_d(&fill_d::<FastDataset>(d1), c2, d2),
-        "light" => with_d(&fill_d::<LightDataset>(d1), c2, d2),
-        "gvec" => with_g(&spos(d1), c2, d2),
-        "ghset" => with_g(&spos(d1).into_iter().collect::<HashSet<_>>(), c2, d2),
-        "gbset" => with_g(&spos(d1).into_iter().collect::<BTreeSet<_>>(), c2, d2),
-        "gfast" => with_g(&fill_g::<FastGraph>(d1), c2, d2),
-        "glight" => with_g(&fill_g::<LightGraph>(d1), c2, d2),
-        _ => None,
+    if DATASETS.contains(&c1) {
+        with_dataset!(c1, d1, |a| with_dataset!(c2, d2, |b| run_d(a, b))).flatten()
+    } else {
+        with_graph!(c1, d1, |a| with_graph!(c2, d2, |b| run_g(a, b))).flatten()
+    }
+}
+
+// ------------------------------------------------------------------ wall cap per request
+
+/// generous: the largest generated request costs a few milliseconds; CPU contention cannot stretch that to a minute
+const CAP_SECS: u64 = 60;
+/// after this many hung requests the rest of the run is skipped (each hung worker keeps a core busy)
+const MAX_HUNG: usize = 2;
+static HUNG: std::sync::atomic::AtomicUsize = std::sync::atomic::AtomicUsize::new(0);
+
+enum Capped {
+    Done(Out),
+    Panicked(String),
+    Hung,
+    Skipped,
+}
+
+fn run_capped(c1: &str, d1: &[Q], c2: &str, d2: &[Q]) -> Capped {
+    use std::sync::atomic::Ordering::SeqCst;
+    if HUNG.load(SeqCst) >= MAX_HUNG {
+        return Capped::Skipped;
+    }
+    let (tx, rx) = std::sync::mpsc::channel();
+    let (c1, c2, d1, d2) = (c1.to_string(), c2.to_string(), d1.to_vec(), d2.to_vec());
+    let spawned = std::thread::Builder::new().stack_size(16 << 20).spawn(move || {
+        let r = catch(std::panic::AssertUnwindSafe(|| dispatch(&c1, &d1, &c2, &d2).expect("container")));
+        let _ = tx.send(r);
+    });
+    if spawned.is_err() {
+        return Capped::Panicked("cannot spawn worker thread".into());
+    }
+    match rx.recv_timeout(std::time::Duration::from_secs(CAP_SECS)) {
+        Ok(Ok(out)) => Capped::Done(out),
+        Ok(Err(m)) => Capped::Panicked(m),
+        Err(std::sync::mpsc::RecvTimeoutError::Timeout) => {
+            HUNG.fetch_add(1, SeqCst);
+            Capped::Hung
+        }
+        Err(std::sync::mpsc::RecvTimeoutError::Disconnected) => Capped::Panicked("worker died".into()),
     }
 }
 
@@ -254,7 +360,25 @@ pub fn exec(line: &str) -> String {
     if toks.next().is_some() {
         return "bad-op".into();
     }
-    let Some(out) = dispatch(c1, &d1, c2, &d2) else { return "bad-op".into() };
+    if !(DATASETS.contains(&c1) && DATASETS.contains(&c2) || GRAPHS.contains(&c1) && GRAPHS.contains(&c2)) {
+        return "bad-op".into();
+    }
+    let out = match run_capped(c1, &d1, c2, &d2) {
+        Capped::Done(out) => out,
+        Capped::Panicked(m) => panic!("{}", m),
+        Capped::Skipped => return "skip=1 why=earlier_hang".into(),
+        Capped::Hung => {
+            // the real code did not come back: a failing input of its own (the property says "answers")
+            return format!(
+                "n1={} n2={} iso=hang cert={} ground_differs={} FAIL.no_termination={}s",
+                d1.len(),
+                d2.len(),
+                b(cert_ok(&beta, &d1, &d2)),
+                b(ground_differs(&d1, &d2).is_some()),
+                CAP_SECS
+            );
+        }
+    };
     // the containers must hold exactly what was requested (the generator never emits duplicates); otherwise
     // the case is outside this property (set semantics of containers = C01)
     if !same_multiset(&out.a1, &d1, norm) || !same_multiset(&out.a2, &d2, norm) {
@@ -394,9 +518,24 @@ fn shapes() -> Vec<Vec<Q>> {
 }
 
 fn pick_containers(r: &mut Rng, graph_ok: bool) -> (&'static str, &'static str) {
-    const D: &[&str] = &["vec", "hset", "bset", "fast", "light"];
-    const G: &[&str] = &["gvec", "ghset", "gbset", "gfast", "glight"];
-    if graph_ok && r.chance(1, 2) { (*r.pick(G), *r.pick(G)) } else { (*r.pick(D), *r.pick(D)) }
+    // the five original containers carry most of the weight; the others (another term type, the other tuple
+    // layout, slices, a store after removals, dataset views) are mixed in on either side
+    let pick = |r: &mut Rng, all: &'static [&'static str]| if r.chance(2, 3) { all[r.below(5)] } else { all[5 + r.below(all.len() - 5)] };
+    if graph_ok && r.chance(1, 2) { (pick(r, GRAPHS), pick(r, GRAPHS)) } else { (pick(r, DATASETS), pick(r, DATASETS)) }
+}
+
+fn bucket(n: usize) -> &'static str {
+    match n {
+        0 => "0",
+        1..=2 => "1-2",
+        3..=5 => "3-5",
+        6..=11 => "6-11",
+        12..=23 => "12-23",
+        24..=47 => "24-47",
+        48..=99 => "48-99",
+        100..=299 => "100-299",
+        _ => "300+",
+    }
 }
 
 fn render_beta(beta: &BTreeMap<String, String>) -> String {
@@ -411,7 +550,16 @@ fn emit(ctx: &mut GenCtx, kind: &str, beta: &BTreeMap<String, String>, d1: &[Q],
     let (c1, c2) = pick_containers(&mut ctx.rng, graph_ok);
     let qs = |d: &[Q]| d.iter().map(|q| q.render()).collect::<Vec<_>>().join(" ");
     ctx.stats.bump(&format!("kind.{}", kind));
-    ctx.stats.bump(&format!("containers.{}-{}", c1, c2));
+    ctx.stats.bump(&format!("container.{}", c1));
+    ctx.stats.bump(&format!("container.{}", c2));
+    ctx.stats.bump(if c1 == c2 { "containers.same" } else { "containers.different" });
+    let other_terms = |c: &str| matches!(c, "arc" | "garc" | "grc");
+    if other_terms(c1) != other_terms(c2) {
+        ctx.stats.bump("containers.two_term_types");
+    }
+    let n = d1.len().max(d2.len());
+    ctx.stats.bump(&format!("pair.statements.{}", bucket(n)));
+    ctx.stats.bump(&format!("pair.labels.{}", bucket(labels(d1).len().max(labels(d2).len()))));
     let line = format!("iso {} {} {} {} {} | {}", kind, c1, c2, render_beta(beta), qs(d1), qs(d2));
     if ctx.stats.samples.len() < 4 {
         ctx.stats.sample(line.clone());
@@ -426,9 +574,12 @@ fn random_beta(r: &mut Rng, d: &[Q], keep_nested: bool) -> BTreeMap<String, Stri
     let nested: BTreeSet<String> = occ.iter().filter(|x| x.1).map(|x| x.0.clone()).collect();
     let ls: Vec<String> = labels(d).into_iter().filter(|l| !(keep_nested && nested.contains(l))).collect();
     let mut img: Vec<String> = ls.clone();
-    match r.below(3) {
+    let fresh = |i: usize| if i < FRESH.len() { FRESH[i].to_string() } else { format!("f{}", i) };
+    match r.below(4) {
         0 => shuffle(r, &mut img),
-        1 => img = ls.iter().enumerate().map(|(i, _)| FRESH[i % FRESH.len()].to_string()).collect(),
+        1 => img = ls.iter().enumerate().map(|(i, _)| fresh(i)).collect(),
+        // the lexical order of the labels inverted (`ls` is sorted)
+        2 => img.reverse(),
         _ => {
             shuffle(r, &mut img);
             if !img.is_empty() {
@@ -581,7 +732,139 @@ fn variants(ctx: &mut GenCtx, gen_: &G7, d: &[Q], graph_only: bool) {
             let e = dedup(e);
             emit(ctx, if to_existing { "rewire" } else { "split" }, &none, d, &e);
         }
+        // 6. the blank objects of two statements exchanged (degrees kept: only deeper refinement can tell)
+        let idx: Vec<usize> = (0..d2.len()).filter(|&k| matches!(d2[k].o, T::Bnode(_))).collect();
+        if idx.len() >= 2 {
+            let a = idx[ctx.rng.below(idx.len())];
+            let b_ = idx[ctx.rng.below(idx.len())];
+            if d2[a].o != d2[b_].o {
+                let mut e = d2.clone();
+                let (oa, ob) = (e[a].o.clone(), e[b_].o.clone());
+                e[a].o = ob;
+                e[b_].o = oa;
+                let e = dedup(e);
+                emit(ctx, "swap", &none, d, &e);
+            }
+        }
     }
+}
+
+/// label pool of the larger shapes: four spellings, so that lexical order is unrelated to the index
+fn lbl(i: usize) -> T {
+    T::Bnode(match i % 4 {
+        0 => format!("b{}", i),
+        1 => format!("{}", i),
+        2 => format!("x.{}", i),
+        _ => format!("L{}", i),
+    })
+}
+
+const BIG_KINDS: &[&str] = &[
+    "chain", "cycle", "two_cycles", "star", "star_marked", "star_quoted", "chain_quoted", "fan_graph_name", "two_copies",
+    "sparse", "tree",
+];
+
+fn sparse(r: &mut Rng, lo: usize, n: usize) -> Vec<Q> {
+    let i = |s: &str| T::Iri(s.to_string());
+    let m = n + r.below(2 * n);
+    (0..m)
+        .map(|k| {
+            let o = if r.chance(1, 6) { T::Lit(format!("{}", k % 3), "http://www.w3.org/2001/XMLSchema#integer".into()) } else { lbl(lo + r.below(n)) };
+            let g = if r.chance(1, 6) { Some(lbl(lo + r.below(n))) } else { None };
+            Q { s: lbl(lo + r.below(n)), p: i(if r.chance(1, 2) { "x:p" } else { "x:q" }), o, g }
+        })
+        .collect()
+}
+
+/// shapes with 6-40 (thorough: up to 64) blank nodes: long refinement (chains), many blank-equal statements around
+/// one node (stars), regular structures, components in two copies, one blank graph name shared by many statements
+fn big_shape(r: &mut Rng, kind: &str, n: usize) -> Vec<Q> {
+    let i = |s: &str| T::Iri(s.to_string());
+    let tr = |a: T, b: T, c: T| T::Triple(Box::new([a, b, c]));
+    let q = |s: T, p: T, o: T, g: Option<T>| Q { s, p, o, g };
+    let lit = |k: usize| T::Lit(format!("{}", k), "http://www.w3.org/2001/XMLSchema#integer".into());
+    let mut d: Vec<Q> = match kind {
+        "chain" => (0..n - 1).map(|k| q(lbl(k), i("x:p"), lbl(k + 1), None)).collect(),
+        "cycle" => (0..n).map(|k| q(lbl(k), i("x:p"), lbl((k + 1) % n), None)).collect(),
+        "two_cycles" => {
+            let h = n / 2;
+            (0..h).map(|k| q(lbl(k), i("x:p"), lbl((k + 1) % h), None)).chain((0..h).map(|k| q(lbl(h + k), i("x:p"), lbl(h + (k + 1) % h), None))).collect()
+        }
+        "star" => (1..n).map(|k| q(lbl(0), i("x:p"), lbl(k), None)).collect(),
+        "star_marked" => (1..n).flat_map(|k| [q(lbl(0), i("x:p"), lbl(k), None), q(lbl(k), i("x:q"), lit(k), None)]).collect(),
+        "star_quoted" => (1..n)
+            .map(|k| {
+                let inner = tr(lbl(0), i("x:p"), lbl(k));
+                if k % 2 == 0 { q(tr(i("x:q"), i("x:p"), inner), i("x:q"), lit(k % 5), None) } else { q(inner, i("x:q"), lit(k % 5), None) }
+            })
+            .collect(),
+        "chain_quoted" => (0..n - 1)
+            .map(|k| {
+                if k % 3 == 0 {
+                    q(tr(tr(lbl(k), i("x:p"), i("x:q")), i("x:q"), lbl(k + 1)), i("x:p"), i("x:q"), None)
+                } else {
+                    q(tr(lbl(k), i("x:p"), lbl(k + 1)), i("x:q"), T::Lang("chat".into(), "en".into()), None)
+                }
+            })
+            .collect(),
+        "fan_graph_name" => {
+            let m = 40 + r.below(80);
+            (0..m)
+                .map(|k| q(i(&format!("x:s{}", k)), i("x:p"), i(&format!("x:o{}", k % 7)), Some(lbl(0))))
+                .chain((1..n - 1).map(|k| q(lbl(k), i("x:p"), lbl(k + 1), Some(lbl(0)))))
+                .collect()
+        }
+        "two_copies" => {
+            let h = n / 2;
+            let c = sparse(r, 0, h);
+            let shift: BTreeMap<String, String> = (0..h).map(|k| (bn_label(&lbl(k)), bn_label(&lbl(h + k)))).collect();
+            let c2: Vec<Q> = c.iter().map(|x| relabel(x, &shift)).collect();
+            c.into_iter().chain(c2).collect()
+        }
+        "sparse" => sparse(r, 0, n),
+        _ => (0..n).flat_map(|k| [2 * k + 1, 2 * k + 2].into_iter().filter(|&c| c < n).map(move |c| (k, c))).map(|(k, c)| q(lbl(k), i("x:p"), lbl(c), None)).collect(),
+    };
+    if r.chance(1, 2) {
+        // one node made special: symmetric shapes then need about n rounds
+        d.push(q(lbl(0), i("x:q"), T::Lit("anchor".into(), "http://www.w3.org/2001/XMLSchema#string".into()), None));
+    }
+    if r.chance(1, 8) {
+        // every node mentioned by many more statements (>= 300 in all)
+        let mut k = 0;
+        while d.len() < 300 {
+            d.push(q(lbl(k % n), i("x:f"), lit(k), None));
+            k += 1;
+        }
+    }
+    dedup(d)
+}
+
+fn bn_label(t: &T) -> String {
+    match t {
+        T::Bnode(b) => b.clone(),
+        _ => unreachable!(),
+    }
+}
+
+/// pairs that pass all three gates but are wired differently (no oracle; the model's refinement answer is compared):
+/// the first two are regular (refinement cannot tell them apart), on the others it must
+fn struct_pairs() -> Vec<(Vec<Q>, Vec<Q>)> {
+    let bn = |k: usize| T::Bnode(format!("b{}", k));
+    let i = |s: &str| T::Iri(s.to_string());
+    let e = |a: usize, b: usize| Q { s: bn(a), p: i("x:p"), o: bn(b), g: None };
+    let cyc = |lo: usize, n: usize| (0..n).map(move |k| e(lo + k, lo + (k + 1) % n)).collect::<Vec<_>>();
+    let cat = |a: Vec<Q>, b: Vec<Q>| a.into_iter().chain(b).collect::<Vec<_>>();
+    let gq = |s: usize, g: usize| Q { s: bn(s), p: i("x:p"), o: i("x:q"), g: Some(bn(g)) };
+    vec![
+        (cat(cyc(0, 3), cyc(3, 3)), cyc(0, 6)),
+        (cat(cyc(0, 4), cyc(4, 4)), cyc(0, 8)),
+        (vec![e(0, 1), e(1, 2), e(2, 3)], vec![e(0, 1), e(0, 2), e(0, 3)]),
+        (vec![e(0, 1), e(0, 2), e(0, 3), e(4, 5)], vec![e(0, 1), e(0, 2), e(4, 5), e(4, 3)]),
+        (cyc(0, 3), vec![e(0, 1), e(1, 2), e(0, 2)]),
+        ((1..5).map(|k| e(0, k)).collect(), (1..5).map(|k| e(k, 0)).collect()),
+        (vec![gq(0, 0), gq(1, 1)], vec![gq(0, 1), gq(1, 0)]),
+        (cat(cyc(0, 5), vec![e(0, 5), e(5, 6)]), cat(cyc(0, 5), vec![e(0, 5), e(1, 6)])),
+    ]
 }
 
 pub fn generate(ctx: &mut GenCtx) {
@@ -598,6 +881,30 @@ pub fn generate(ctx: &mut GenCtx) {
     let sh = shapes();
     emit(ctx, "struct", &BTreeMap::new(), &sh[3], &sh[4]);
     emit(ctx, "struct", &BTreeMap::new(), &sh[4], &sh[3]);
+    for (a, b_) in struct_pairs() {
+        emit(ctx, "struct", &BTreeMap::new(), &a, &b_);
+        emit(ctx, "struct", &BTreeMap::new(), &b_, &a);
+    }
+    // larger shapes
+    let nbig = if ctx.thorough { 1500 } else { 160 };
+    for k in 0..nbig {
+        let kind = BIG_KINDS[k % BIG_KINDS.len()];
+        let n = 6 + ctx.rng.below(if ctx.thorough { 59 } else { 35 });
+        let d = big_shape(&mut ctx.rng, kind, n);
+        let graph_only = d.iter().all(|q| q.g.is_none());
+        ctx.stats.bump(&format!("big.kind.{}", kind));
+        ctx.stats.bump(&format!("big.labels.{}", bucket(labels(&d).len())));
+        ctx.stats.bump(&format!("big.statements.{}", bucket(d.len())));
+        let mut deg: BTreeMap<String, usize> = BTreeMap::new();
+        for q in &d {
+            for l in labels(std::slice::from_ref(q)) {
+                *deg.entry(l).or_default() += 1;
+            }
+        }
+        ctx.stats.bump(&format!("big.max_mentions.{}", bucket(deg.values().copied().max().unwrap_or(0))));
+        let gen_ = G7 { bn: 3, star: true, generalized: false, nlabels: 3 };
+        variants(ctx, &gen_, &d, graph_only);
+    }
     let n = if ctx.thorough { 30000 } else { 2000 };
     for i in 0..n {
         let gen_ = G7 {
